@@ -1773,6 +1773,22 @@ def model_for_object(obj):
                     outs.append((s2, RaiseV("TypeError", None, f"re.{_name} on {type(text).__name__}")))
             return outs
         return _re_fn
+    if obj is _re.escape:
+        def _re_escape(eng, st, pos, kw):
+            if len(pos) != 1 or not isinstance(pos[0], StrV):
+                raise Unsupported("re.escape argument")
+            eng.trusted_used.add("re.escape: uninterpreted pure function str -> str")
+            return [(st, StrV(z3.Function("py_re_escape", z3.StringSort(), z3.StringSort())(pos[0].t)))]
+        return _re_escape
+    if obj is _re.sub:
+        def _re_sub(eng, st, pos, kw):
+            if len(pos) != 3 or not all(isinstance(p, StrV) for p in pos) or kw:
+                raise Unsupported("re.sub arguments")
+            eng.trusted_used.add("re.sub(pattern, repl, text) with a computed pattern: uninterpreted pure function of its three "
+                                 "string arguments (assumed not to raise: the pattern is built from re.escape'd text)")
+            f = z3.Function("py_re_sub3", z3.StringSort(), z3.StringSort(), z3.StringSort(), z3.StringSort())
+            return [(st, StrV(f(pos[0].t, pos[1].t, pos[2].t)))]
+        return _re_sub
     if obj is chr:
         def _chr(eng, st, pos, kw):
             iv = _simp(pos[0].t)
